@@ -31,6 +31,7 @@ func init() {
 			c17ValidateBeforeReplicate(r)
 			kvSizeBoundaryAgreement(r)
 			putDoesNotRetain(r)
+			memoryEscape(r)
 		},
 	})
 }
